@@ -104,7 +104,7 @@ func (sc *scriptCtx) maybeDrain() {
 	}
 }
 
-var scriptNames = []string{"del_wins", "expired_rewrite", "same_bucket", "sweep_race", "clear_metrics", "overwrite_chain", "ttl_mix", "evict_refill", "benign_fill", "stale_new", "clear_race"}
+var scriptNames = []string{"del_wins", "expired_rewrite", "same_bucket", "sweep_race", "clear_metrics", "overwrite_chain", "ttl_mix", "evict_refill", "benign_fill", "stale_new", "clear_race", "shrink_del"}
 
 // scenarios whose client calls are strictly sequential (each returns before the next starts) and
 // contain no Clear: with room to spare the C06 reference-map oracle applies to them
@@ -393,6 +393,37 @@ func cacheScript(sc *scriptCtx) {
 		sc.do(0, "rem", 0, 0, 0)
 		sc.do(0, "iter", 0, 0, 0)
 		sc.snapshot()
+	case "shrink_del":
+		// C05 / C03 / C13: the capacity is lowered (UpdateMaxCost, also below the internal item size)
+		// between the application of a buffered Set and the processing of the Del tombstone queued
+		// behind it (or before the Del is issued); Del must still win, whatever the tombstone "costs"
+		sc.drain()
+		sc.do(0, "set", k, 1+sc.cost(), 0)
+		sc.do(0, "set", k2, 1+sc.cost(), 0)
+		early := rng.Intn(2) == 0
+		if early {
+			sc.do(0, "del", k, 0, 0) // tombstone queued behind the still buffered Set
+		}
+		if sc.appAt() != 40 {
+			sc.appUntil(40) // the Set of k has been applied
+		}
+		sc.do(other, "updmax", 0, []int64{1, 10, 40, 55, 56, 57, 100}[rng.Intn(7)], 0)
+		if !early {
+			if rng.Intn(3) == 0 {
+				sc.do(0, "set", k, 1+sc.cost(), 0)
+			}
+			sc.maybeDrain()
+			sc.do(0, "del", k, 0, 0)
+		}
+		sc.drain()
+		sc.do(0, "wait", 0, 0, 0)
+		sc.expectGet(0, k, 0, false, "C05", "Del(k) returned and a later Wait returned (the capacity had been lowered by UpdateMaxCost while the tombstone was queued)")
+		sc.do(0, "get", k2, 0, 0)
+		sc.do(0, "rem", 0, 0, 0)
+		sc.do(other, "updmax", 0, sc.cfg.maxCost, 0)
+		sc.do(0, "set", k, 1+sc.cost(), 0)
+		sc.do(0, "wait", 0, 0, 0)
+		sc.do(0, "get", k, 0, 0)
 	case "benign_fill":
 		// C03 / C09: a history in which no Set can raise the accounted cost of its key (each key is
 		// written once, or again with a cost that is not larger, strictly one call after the other)
